@@ -1,11 +1,14 @@
 """C06 - Validator admits exactly requests with valid JWT / signature / Basic credentials (DESIGN 5/C06).
 
-Phases (VERIF_PHASES=enum,clock,etcd,go,mbt,tv):
+Phases (VERIF_PHASES=enum,clock,etcd,reconf,go,mbt,tv):
   enum   TLC enumerates every (configuration, request record) vector of specs/Validator_Gen.tla with the contract's
          prediction, checking on the way the contract's theorems (single-mutation theorem, closure of the vector set)
   clock  TLC model-checks the temporal part (exp / nbf against an advancing clock) and generates clock behaviours
   etcd   TLC model-checks the credential-table part (ETCD mode: snapshots remove users / change passwords / empty the
          table between presentations) and generates such behaviours
+  reconf TLC model-checks the hot-update part (Reconfigure: a new generation is built from a new spec with Inherit: JWT secret
+         rotated / algorithm changed, access keys removed / re-keyed, Basic users changed, methods dropped and added) and
+         generates such behaviours (accepted -> hot update -> the same request again)
   go     the harness concretises every vector >= 3 times on the real Validator through the server path
   mbt    observed result vs. the prediction carried by the vector
   tv     the logged cases (plus randomly composed ones that carry no prediction) validated as a trace by TLC
@@ -13,6 +16,7 @@ Phases (VERIF_PHASES=enum,clock,etcd,go,mbt,tv):
 import json
 import os
 import random
+from concurrent.futures import ThreadPoolExecutor
 
 from lib.vlib import jdump, sha
 
@@ -22,12 +26,13 @@ PARTS = ("method", "path", "pathenc", "query", "sheader", "iheader", "body", "si
 TAGS = {"hdr": "header validator: ", "jwt": "JWT validator: ", "sig": "signature validator: ", "basic": "http basic validator: "}
 
 INVS = ("OnlyIfAllAccept Complete RejectShape AcceptShape SingleMutationRejected IatNeverRescues NotBeforeNbf NeverAfterExp "
-        "OnlyCurrentCredentials EmptyTableRejectsAll RepairedImplRefines")
+        "OnlyCurrentCredentials EmptyTableRejectsAll OnlyCurrentSecret OnlyCurrentAccessKeys NoAnonymousSigner RepairedImplRefines")
 
 
-def _consts(mode, now0, maxpresent, maxsync, full=False):
-    return ("CONSTANTS\n  Cfgs <- GenCfgs\n  Reqs <- GenReqs\n  Now0 = %d\n  MaxNow = 4\n  MaxPresent = %d\n  MaxSync = %d\n"
-            "  Full = %s\n  Mode = \"%s\"\n" % (now0, maxpresent, maxsync, "TRUE" if full else "FALSE", mode))
+def _consts(mode, now0, maxpresent, maxsync, full=False, maxreconf=0):
+    return ("CONSTANTS\n  Cfgs <- GenCfgs\n  Reqs <- GenReqs\n  Recfgs <- GenRecfgs\n  Now0 = %d\n  MaxNow = 4\n  MaxPresent = %d\n"
+            "  MaxSync = %d\n  MaxReconf = %d\n  Full = %s\n  Mode = \"%s\"\n" % (now0, maxpresent, maxsync, maxreconf,
+                                                                                 "TRUE" if full else "FALSE", mode))
 
 
 def enum_cfg(full):
@@ -44,7 +49,13 @@ def etcd_cfg(spec, maxpresent, maxsync, props=True):
            ("VIEW view\nINVARIANTS %s\nPROPERTIES AcceptedThenRevoked\n" % INVS if props else "")
 
 
-TRACE_CFG = ("SPECIFICATION TSpec\nCONSTANTS\n  Cfgs = {}\n  Reqs <- NoReqs\n  Now0 = 0\n  MaxNow = 100000000\n  MaxPresent = 100000000\n  MaxSync = 100000000\n"
+def reconf_cfg(spec, maxpresent, maxreconf, maxsync=0, props=True):
+    return "SPECIFICATION %s\n" % spec + _consts("reconf", 4, maxpresent, maxsync, maxreconf=maxreconf) + \
+           ("VIEW view\nINVARIANTS %s\nPROPERTIES AcceptedThenRotated AcceptedThenRevoked\n" % INVS if props else "")
+
+
+TRACE_CFG = ("SPECIFICATION TSpec\nCONSTANTS\n  Cfgs = {}\n  Reqs <- NoReqs\n  Recfgs <- NoRecfgs\n  Now0 = 0\n  MaxNow = 100000000\n  MaxPresent = 100000000\n"
+             "  MaxSync = 100000000\n  MaxReconf = 100000000\n"
              "CONSTRAINT HWM\nPOSTCONDITION Accepted\nINVARIANTS TContract Final\n")
 
 
@@ -54,6 +65,9 @@ NOTOK = {"p": False, "key": "-", "alg": "-", "halg": "-", "nbf": -1, "exp": -1, 
 NOSG = {"p": False, "carrier": "-", "key": "-", "age": "-", "pexp": "-", "cexcl": False, "body": False, "mut": NOMUT}
 NOBS = {"p": False, "user": "-", "ver": "v1", "pw": "-", "b64": True}
 USERS0 = {"uPlain": "v1", "uColon": "v1"}
+MAT0 = {"jsec": "k0", "aks": {"id0": "v1", "id1": "v1"}}
+SGCRED = {"id0": ("id0", "v1"), "id1": ("id1", "v1"), "id0v2": ("id0", "v2"), "id1v2": ("id1", "v2")}
+SGKEYS_BAD = ["id0wrongsecret", "unknown", "noid", "noidsecret", "id0nosecret", "id0v2", "id1v2"]
 
 
 def random_behaviours(rng, nb, per):
@@ -79,7 +93,7 @@ def random_behaviours(rng, nb, per):
                 mut[p] = True
         age = "fresh" if good else rng.choice(["fresh", "tooOld", "future"])
         pexp = "-" if carrier == "header" else ("live" if good or age == "future" else rng.choice(["live", "expired"]))
-        return {"p": True, "carrier": carrier, "key": rng.choice(["id0", "id1"]) if good else rng.choice(["id0", "id1", "id0wrongsecret", "unknown"]),
+        return {"p": True, "carrier": carrier, "key": rng.choice(["id0", "id1"]) if good else rng.choice(["id0", "id1"] + SGKEYS_BAD),
                 "age": age, "pexp": pexp, "cexcl": c["sig"]["excl"] if rng.random() < 0.9 else not c["sig"]["excl"],
                 "body": rng.random() < 0.5, "mut": mut}
 
@@ -103,6 +117,7 @@ def random_behaviours(rng, nb, per):
         if c["hdr"] == "off" and not c["jwt"]["on"] and not c["sig"]["on"] and c["basic"] == "off":
             continue
         beh = [{"a": "init", "cfg": c, "now": 4}]
+        last = None
         for _ in range(per):
             r = {"hv": [], "auth": "none", "tok": NOTOK, "ck": NOTOK, "sg": NOSG, "bs": NOBS}
             if c["hdr"] != "off" or rng.random() < 0.2:
@@ -127,7 +142,22 @@ def random_behaviours(rng, nb, per):
                 r["sg"] = sg(c, "query")
             if c["basic"] == "etcd" and rng.random() < 0.25:
                 beh.append({"a": "sync", "users": {u: rng.choice(["v1", "v1", "v2", "gone"]) for u in ("uPlain", "uColon")}})
+            if rng.random() < 0.12 and c["basic"] != "nomode":
+                # hot update: same methods, new material (the request generator above keeps using the first generation's
+                # classes, so about half of the credentials stop / start being valid)
+                c = json.loads(json.dumps(c))
+                if c["jwt"]["on"]:
+                    c["jwt"]["alg"] = rng.choice(algs)
+                aks = {i: rng.choice(["v1", "v1", "v2", "gone"]) for i in ("id0", "id1")}
+                if all(v == "gone" for v in aks.values()):
+                    aks["id1"] = "v2"
+                beh.append({"a": "reconf", "cfg": c, "mat": {"jsec": rng.choice(["k0", "k0", "k1"]), "aks": aks},
+                            "users": {u: rng.choice(["v1", "v1", "v2", "gone"]) for u in ("uPlain", "uColon")}})
+                if last is not None and rng.random() < 0.7:
+                    beh.append({"a": "present", "req": last})     # an earlier request again, after the hot update
             beh.append({"a": "present", "req": r})
+            if rng.random() < 0.3:
+                last = r
         behs.append(beh)
     return behs
 
@@ -145,7 +175,12 @@ def _time_class(t, now):
     return "noClaims" if t["exp"] == -1 and t["nbf"] == -1 else "valid"
 
 
-def why_bad(m, cfg, req, now, users):
+def _sg_known(key, mat):
+    c = SGCRED.get(key)
+    return bool(c) and mat["aks"][c[0]] == c[1]
+
+
+def why_bad(m, cfg, req, now, users, mat=MAT0):
     """the conjuncts of the method's validity that fail, as a '+'-joined string (mirrors Validator.tla; used only to
     name the class of a violation, never to decide one)"""
     w = []
@@ -158,7 +193,7 @@ def why_bad(m, cfg, req, now, users):
         if not toks:
             w = ["absent"]
         for t in toks:
-            w += (["key"] if t["key"] != "k0" else []) + (["alg"] if t["alg"] != cfg["jwt"]["alg"] else []) + \
+            w += (["key"] if t["key"] != mat["jsec"] else []) + (["alg"] if t["alg"] != cfg["jwt"]["alg"] else []) + \
                  (["halg"] if t["halg"] != cfg["jwt"]["alg"] else []) + (["mut:" + t["mut"]] if t["mut"] != "none" else []) + \
                  (["time:" + _time_class(t, now)] if _time_class(t, now) in ("notYet", "expired") else []) + \
                  (["iat:future"] if t["iat"] == "future" else [])
@@ -167,7 +202,7 @@ def why_bad(m, cfg, req, now, users):
         if not s["p"]:
             return "absent"
         covered = [p for p in PARTS if p not in ("iheader",) + (("body",) if cfg["sig"]["excl"] else ())]
-        w = (["key:" + s["key"]] if s["key"] not in ("id0", "id1") else []) + \
+        w = (["key:" + s["key"]] if not _sg_known(s["key"], mat) else []) + \
             (["age:" + s["age"]] if cfg["sig"]["ttl"] and s["age"] != "fresh" else []) + \
             (["pexp"] if s["carrier"] == "query" and s["pexp"] != "live" else []) + \
             ["mut:" + p for p in covered if s["mut"][p]] + (["cexcl"] if s["cexcl"] and not cfg["sig"]["excl"] else [])
@@ -208,6 +243,8 @@ def method_fields(m, cfg, req, now):
 def signatures(case, exp, v):
     """list of (sig, what) for a case whose observation the contract (verdict exp, per-method v) does not allow"""
     cfg, req, now, res, users = case["cfg"], case["req"], case["now"], case["res"], case.get("users") or USERS0
+    mat, gen = case.get("mat") or MAT0, case.get("gen", 0)
+    hot = {"gen": "inherited"} if gen else {}     # the filter instance was built with Inherit from a running one
     out = []
     if case.get("panic"):
         return [({"kind": "panic", "site": case["panic"][:80]}, "Validator.Handle panicked: %s" % case["panic"][:200])]
@@ -220,13 +257,13 @@ def signatures(case, exp, v):
     if exp == "reject" and res["acc"]:
         for m in METHODS:
             if v.get(m) == "bad":
-                f = dict(method_fields(m, cfg, req, now), why=why_bad(m, cfg, req, now, users))
+                f = dict(method_fields(m, cfg, req, now), why=why_bad(m, cfg, req, now, users, mat), **hot)
                 out.append((dict(kind="false-accept", method=m, **f),
                             "request accepted although the %s method must reject it (%s)" % (m, jdump(f))))
     elif exp == "accept" and not res["acc"]:
         blamed = [m for m in METHODS if TAGS[m] in (case.get("tag") or "")]
         m = blamed[0] if len(blamed) == 1 else "?"
-        f = method_fields(m, cfg, req, now) if m != "?" else {"tag": case.get("tag")}
+        f = dict(method_fields(m, cfg, req, now) if m != "?" else {"tag": case.get("tag")}, **hot)
         out.append((dict(kind="false-reject", method=m, **f),
                     "request with valid credentials for every configured method rejected by the %s method: %s (%s)" % (m, case.get("tag"), jdump(f))))
     return out
@@ -276,19 +313,32 @@ def _vacuity(ctx, cases):
             return "method %s: %d must-accept / %d must-reject cases executed" % (m, na, nr)
     nm = sum(1 for c in cases if c["mutations"])
     last, flips, revoked, readmit, empty = {}, 0, 0, 0, 0
+    rot = {"jwt": 0, "sig": 0, "basic": 0, "readmit": 0, "same": 0}
     for c in pred:
         k = (c["beh"], c["rep"], jdump(c["req"]))
         was = last.get(k)
         if was and was[0] == "accept" and c["exp"] == "reject":
             flips += c["now"] > was[1]
-            if c["users"] != was[2]:
+            if c["users"] != was[2] and c["gen"] == was[3]:
                 revoked += 1
                 empty += all(v == "gone" for v in c["users"].values())
-        if was and was[0] == "reject" and c["exp"] == "accept" and c["users"] != was[2]:
+            if c["gen"] > was[3]:      # accepted by an earlier generation, must be rejected by this one: by which method
+                for m in ("jwt", "sig", "basic"):
+                    rot[m] += c["v"][m] == "bad"
+        if was and was[0] == "reject" and c["exp"] == "accept" and c["users"] != was[2] and c["gen"] == was[3]:
             readmit += 1
-        last[k] = (c["exp"], c["now"], c["users"])
+        if was and c["gen"] > was[3] and c["exp"] == "accept":
+            rot["readmit" if was[0] == "reject" else "same"] += 1
+        last[k] = (c["exp"], c["now"], c["users"], c["gen"])
     ctx.log("coverage (predicted): %d post-signing mutations, %d tokens accepted then expired, %d credentials accepted then revoked by a "
             "snapshot (%d: empty table), %d admitted after a snapshot" % (nm, flips, revoked, empty, readmit))
+    ctx.log("coverage (predicted), hot updates: accepted by one generation then to be rejected by the next: jwt %(jwt)d, signature %(sig)d, "
+            "basic %(basic)d; rejected then to be admitted: %(readmit)d; admitted before and after: %(same)d" % rot)
+    if ctx.phase("reconf") and (min(rot["jwt"], rot["sig"], rot["basic"]) < 5 or rot["readmit"] < 5 or rot["same"] < 5):
+        return "hot updates: %s" % jdump(rot)
+    nk = sum(1 for c in pred if c["req"]["sg"]["p"] and c["req"]["sg"]["key"] in ("noid", "noidsecret", "id0nosecret") and c["cfg"]["sig"]["on"])
+    if ctx.phase("enum") and nk < 20:
+        return "only %d signatures with an empty access key id / empty secret executed" % nk
     if nm < 100 or (ctx.phase("clock") and flips < 5) or (ctx.phase("etcd") and (revoked < 5 or readmit < 3 or empty < 1)):
         return "%d post-signing mutations, %d accepted-then-expired tokens, %d accepted-then-revoked credentials (%d by an empty table), " \
                "%d admitted after a snapshot" % (nm, flips, revoked, empty, readmit)
@@ -299,41 +349,59 @@ def _vacuity(ctx, cases):
 def run(ctx):
     ctx.cov["rule"] = ("vectors = all (configuration, credential-record) states of the contract enumerated by TLC (-dump), each concretised "
                        ">= 3 times with seeded data on the real Validator through wire format + httpprot.NewRequest + FetchPayload; "
+                       "clock / credential-snapshot / hot-update (Inherit) behaviours generated by TLC replayed the same way; "
                        "traces = behaviours replayed (one per configuration instance) and validated by TLC against the contract; "
                        "non-trivial = distinct abstract (cfg, request) classes with at least one enabled method, evaluated on the real code")
     ctx.assumptions += ["MAC strength, golang-jwt and go-htpasswd are trusted; TLA+ sees 'signed with key k over parts S, then part p mutated'",
                         "JWT clock through jwt.TimeFunc; the signature TTL uses time.Now() in the code: signing times are chosen >= 20 minutes "
                         "away from the 10 minute TTL boundary, presign expiry >= 1 minute away",
                         "OAuth2 (remote introspection) is outside the property",
+                        "a hot update is one atomic step for requests (the pipeline swaps the generation); the harness builds the new generation "
+                        "with kind.CreateInstance + Inherit(running one) and then closes the old one, as pipeline.reload does",
                         "outcomes the property leaves open (token exactly at exp, cookie and bearer token disagreeing, multi-valued ruled "
                         "header with mixed values, presigned query next to a foreign Authorization header) are 'free' in the contract"]
     full = not ctx.quick
-    vectors, clock_behs = [], []
-    if ctx.phase("enum"):
-        recs = ctx.tlc_dump("Validator_Gen", enum_cfg(full), label="enumeration of cfg x request vectors + contract theorems",
-                            timeout=1500)
-        seen = set()
-        for r in recs:
-            if r.get("a") != "present":
-                continue
-            k = jdump(r)
-            if k not in seen:
-                seen.add(k)
-                vectors.append(r)
-        if len(vectors) < 1000:
-            ctx.inconclusive("enumeration produced only %d vectors" % len(vectors))
-        ctx.log("enumerated %d vectors (%d must-accept, %d must-reject, %d free)" % (
-            len(vectors), sum(v["exp"] == "accept" for v in vectors), sum(v["exp"] == "reject" for v in vectors),
-            sum(v["exp"] == "free" for v in vectors)))
-    if ctx.phase("clock"):
-        r = ctx.tlc_mc("Validator_Gen", clock_cfg("MSpec", 2 if ctx.quick else 3), label="clock: exp/nbf temporal theorems", timeout=1200)
-        ctx.log("clock part model checked: %d distinct states" % r.distinct)
-        clock_behs = ctx.tlc_simulate("Validator_Gen", clock_cfg("CSpec", 6, props=False), num=400 if ctx.quick else 1000, depth=11)
-    etcd_behs = []
-    if ctx.phase("etcd"):
-        r = ctx.tlc_mc("Validator_Gen", etcd_cfg("MSpec", 2 if ctx.quick else 3, 2), label="etcd: credential snapshots, temporal theorems", timeout=1200)
-        ctx.log("etcd part model checked: %d distinct states" % r.distinct)
-        etcd_behs = ctx.tlc_simulate("Validator_Gen", etcd_cfg("CSpec", 5, 4, props=False), num=250 if ctx.quick else 800, depth=10)
+    vectors, clock_behs, etcd_behs, reconf_behs = [], [], [], []
+
+    # the TLC work (independent runs) in two lanes side by side
+    def lane_enum_clock():
+        if ctx.phase("enum"):
+            recs = ctx.tlc_dump("Validator_Gen", enum_cfg(full), label="enumeration of cfg x request vectors + contract theorems",
+                                timeout=1500)
+            seen = set()
+            for r in recs:
+                if r.get("a") != "present":
+                    continue
+                k = jdump(r)
+                if k not in seen:
+                    seen.add(k)
+                    vectors.append(r)
+            if len(vectors) < 1000:
+                ctx.inconclusive("enumeration produced only %d vectors" % len(vectors))
+            ctx.log("enumerated %d vectors (%d must-accept, %d must-reject, %d free)" % (
+                len(vectors), sum(v["exp"] == "accept" for v in vectors), sum(v["exp"] == "reject" for v in vectors),
+                sum(v["exp"] == "free" for v in vectors)))
+        if ctx.phase("clock"):
+            r = ctx.tlc_mc("Validator_Gen", clock_cfg("MSpec", 2 if ctx.quick else 3), label="clock: exp/nbf temporal theorems", timeout=1200)
+            ctx.log("clock part model checked: %d distinct states" % r.distinct)
+            clock_behs.extend(ctx.tlc_simulate("Validator_Gen", clock_cfg("CSpec", 6, props=False), num=400 if ctx.quick else 1000, depth=11))
+
+    def lane_etcd_reconf():
+        if ctx.phase("etcd"):
+            r = ctx.tlc_mc("Validator_Gen", etcd_cfg("MSpec", 2 if ctx.quick else 3, 2), label="etcd: credential snapshots, temporal theorems", timeout=1200)
+            ctx.log("etcd part model checked: %d distinct states" % r.distinct)
+            etcd_behs.extend(ctx.tlc_simulate("Validator_Gen", etcd_cfg("CSpec", 5, 4, props=False), num=250 if ctx.quick else 800, depth=10))
+        if ctx.phase("reconf"):
+            r = ctx.tlc_mc("Validator_Gen", reconf_cfg("RSpec", 2 if ctx.quick else 3, 1, maxsync=0 if ctx.quick else 1),
+                           label="reconf: hot updates (Inherit), temporal theorems", timeout=1500)
+            ctx.log("hot-update part model checked: %d distinct states" % r.distinct)
+            reconf_behs.extend(ctx.tlc_simulate("Validator_Gen", reconf_cfg("CSpec", 6, 3, maxsync=1, props=False),
+                                                num=300 if ctx.quick else 900, depth=11))
+
+    with ThreadPoolExecutor(2) as pool:
+        lanes = [pool.submit(lane_enum_clock), pool.submit(lane_etcd_reconf)]
+    for f in lanes:
+        f.result()      # re-raises (inconclusive) in the main thread
     if not ctx.phase("go"):
         return
 
@@ -346,7 +414,7 @@ def run(ctx):
         vs = bycfg[k]
         behs.append([{"a": "init", "cfg": vs[0]["cfg"], "now": vs[0]["now"]}] +
                     [{"a": "present", "req": v["req"], "exp": v["exp"], "v": v["v"], "impl": v["impl"]} for v in vs])
-    behs += clock_behs + etcd_behs
+    behs += clock_behs + etcd_behs + reconf_behs
     rng = random.Random(ctx.seed * 7919 + 6)
     nrand = (150, 12) if ctx.quick else (800, 14)
     behs += random_behaviours(rng, *nrand)
@@ -376,7 +444,7 @@ def run(ctx):
     byline = {c["line"]: c for c in cases}
     ctx.log("observed: %d of %d cases accepted" % (sum(1 for c in cases if c["res"]["acc"]), len(cases)))
     for c in cases:
-        ctx.nontrivial({"c": c["cfg"], "r": c["req"], "n": c["now"], "u": c["users"]})
+        ctx.nontrivial({"c": c["cfg"], "r": c["req"], "n": c["now"], "u": c["users"], "m": c["mat"], "g": min(c["gen"], 1)})
     picks = [next((c for c in cases if c["res"]["acc"] and c["req"]["sg"]["p"]), None), next((c for c in cases if c["mutations"]), None),
              next((c for c in cases if c["req"]["auth"] == "basic" and c["req"]["bs"]["pw"] == "rightColonX"), None)]
     for c in picks:
@@ -386,8 +454,8 @@ def run(ctx):
 
     def report(c, exp, v, via):
         for sig, what in signatures(c, exp, v):
-            ctx.violation(sig, what + " [%s]" % via, {k: c[k] for k in ("cfg", "now", "users", "req", "res", "tag", "wire", "bodyLen", "bodySha", "chunked",
-                                                                       "mutations", "rep", "panic", "result")} | {"predicted": exp, "v": v})
+            ctx.violation(sig, what + " [%s]" % via, {k: c[k] for k in ("cfg", "mat", "gen", "history", "now", "users", "req", "res", "tag", "wire", "bodyLen",
+                                                                       "bodySha", "chunked", "mutations", "rep", "panic", "result")} | {"predicted": exp, "v": v})
 
     # MBT: the prediction carried by the vector vs. the observation
     if ctx.phase("mbt"):
